@@ -15,4 +15,4 @@ print("setup ok")
 PY
 # code-level stage: serialise the current sources into Gen/Cir.lean and build the refinement proofs
 python3 tools/cir.py >/dev/null
-(cd lean && lake build O1722.Refine.Props O1722.Refine.PropsVss)
+(cd lean && lake build O1722.Refine.Props O1722.Refine.PropsVss O1722.Refine.PropsCan)
